@@ -261,10 +261,11 @@ pub fn gen_cluster(p: &Profile, rng: &mut Prng) -> ClusterCfg {
 }
 
 impl<'a> Driver<'a> {
-    pub fn new(p: &'a Profile, seed: u64) -> Driver<'a> {
+    pub fn new(p: &'a Profile, seed: u64, focus: Option<&'static str>) -> Driver<'a> {
         let mut rng = Prng::new(seed);
         let cluster = gen_cluster(p, &mut rng);
-        let world = World::new(cluster);
+        let mut world = World::new(cluster);
+        world.focus = focus;
         let mut nd = BTreeMap::new();
         let ids: Vec<NodeId> = world.nodes.keys().cloned().collect();
         for id in &ids {
@@ -665,7 +666,10 @@ impl<'a> Driver<'a> {
                         4 => Knob::SkipBcastCommit(self.rng.pm(500)),
                         5 => Knob::MaxCommittedSizePerReady(*self.rng.pick(&[0u64, 50, u64::MAX])),
                         6 => Knob::Priority(self.rng.range(0, 3) as i64 - 1),
-                        7 => Knob::MaxApplyUnpersisted(*self.rng.pick(&[0u64, 1, 5, 1000])),
+                        // applying unpersisted entries is documented as a leader-only option (raft resets it on
+                        // every step-down); the simulated application only sets it on a node it sees as leader
+                        7 if self.world.nodes[&n].obs.role == StateRole::Leader => Knob::MaxApplyUnpersisted(*self.rng.pick(&[0u64, 1, 5, 1000])),
+                        7 => Knob::FreeInflightBuffers,
                         8 => Knob::FreeInflightBuffers,
                         9 => {
                             if self.rng.pm(self.p.group_commit_pm.max(100)) {
